@@ -88,6 +88,18 @@ def normal_form_ok(e):
     return isinstance(e.c, int)
 
 
+def snap_operand(o):
+    """value snapshot of a Literal / Term / Expr operand (None for ints and strings)"""
+    m = pb()
+    if isinstance(o, m.Literal):
+        return ('L', o.v, o.s)
+    if isinstance(o, m.Term):
+        return ('T', o.L.v, o.L.s, o.c)
+    if isinstance(o, m.Expr):
+        return ('E', canon(o))
+    return None
+
+
 def rebuild(cn):
     """Fresh real Expr from a canonical form (through the public constructor)."""
     m = pb()
@@ -156,8 +168,10 @@ class Explorer:
                           note=f'result {canon(result)}')
             ok = False
         for (obj, before) in operands_before:
-            if canon(obj) != before:
-                res.violation('operand-mutated', case, dict(op=how[-1][0]), repr(before), repr(canon(obj)))
+            now = canon(obj) if isinstance(obj, m.Expr) and not (isinstance(before, tuple) and before[:1] == ('E',)) \
+                else snap_operand(obj)
+            if now != before:
+                res.violation('operand-mutated', case, dict(op=how[-1][0]), repr(before), repr(now))
                 ok = False
         return canon(result) if ok else None
 
@@ -188,6 +202,7 @@ class Explorer:
             for opname in ('+', '-', 'r+'):
                 E = rebuild(cn)
                 o = mk()
+                osnap = snap_operand(o)
                 if opname == '+':
                     r = E + o
                     t = t_add(tab, otab)
@@ -200,7 +215,7 @@ class Explorer:
                     r = o + E
                     t = t_add(tab, otab)
                 h2 = how + [(opname,) + d]
-                c2 = self.check(r, t, h2, [(E, cn)])
+                c2 = self.check(r, t, h2, [(E, cn)] + ([(o, osnap)] if osnap else []))
                 if c2 is not None:
                     yield c2, t, h2
         for k in COEFS:
@@ -249,6 +264,19 @@ class Explorer:
                         res.transitions += 1
                         if not (tk.L.v == v and tk.L.s == s and tk.c == c * k):
                             res.violation('term-times-int', dict(lit=[v, s], c=c, k=k), {}, c * k, tk.c)
+            # the same object used twice in one expression (aliasing must not matter)
+            for c in COEFS:
+                T = m.Term(m.Literal(v, s), c)
+                ts = snap_operand(T)
+                self.check(T + T, t_scale(ltab, 2 * c), [('term', v, s, c), ('+', 'term', v, s, c)], [(T, ts)])
+                e1 = m.Expr() + T
+                self.check(e1, t_scale(ltab, c), [('Expr()',), ('+', 'term', v, s, c)], [(T, ts)])
+                e2 = m.Expr() + T
+                self.check(e2, t_scale(ltab, c), [('Expr()',), ('+', 'term', v, s, c)], [(T, ts)])
+                self.check(e1 + T - T + T, t_scale(ltab, 2 * c), [('Expr()',), ('+', 'term', v, s, c),
+                                                                  ('+', 'term', v, s, c)], [(T, ts)])
+            L2 = m.Literal(v, s)
+            self.check(L2 + L2, t_scale(ltab, 2), [('lit', v, s), ('+', 'lit', v, s)], [(L2, ('L', v, s))])
             for (d, mk, otab) in self.ops:
                 # Literal + o, o + Literal
                 self.check(m.Literal(v, s) + mk(), t_add(ltab, otab), [('lit', v, s), ('+',) + d])
